@@ -1151,6 +1151,17 @@ pub fn encode(s: &SpriteSpec, opts: &EncOpts) -> Vec<u8> {
     }
     let total = out.0.len() as u32;
     out.0[0..4].copy_from_slice(&total.to_le_bytes());
+    // extra bytes after the last frame (ignored by readers; the header's file size may or may not
+    // count them)
+    if coin(&mut r, 1, 10) {
+        let n = 1 + r.usize_below(64);
+        let junk = r.bytes(n);
+        out.bytes(&junk);
+        if r.chance(1, 2) {
+            let total = out.0.len() as u32;
+            out.0[0..4].copy_from_slice(&total.to_le_bytes());
+        }
+    }
     out.0
 }
 
